@@ -204,6 +204,10 @@ def check_model(ctx: Ctx, rep: Report) -> None:
         scan_body(m.tree.body, m.name, bound, False)
 
         # ------------------------------------------------------------ decorators, hooks, dynamic facilities (whole module)
+        parents = {}
+        for p_ in ast.walk(m.tree):
+            for c_ in ast.iter_child_nodes(p_):
+                parents[id(c_)] = p_
         for n in ast.walk(m.tree):
             if isinstance(n, (ast.FunctionDef, ast.AsyncFunctionDef, ast.ClassDef)):
                 for d in n.decorator_list:
@@ -219,7 +223,18 @@ def check_model(ctx: Ctx, rep: Report) -> None:
                                                   f"resolve, which the evaluator does not model", stmt=n.name, **where(m, n))
             if isinstance(n, ast.Call):
                 d = _dotted(n.func)
-                if d in DYNAMIC_CALLS or (d is not None and d.endswith(".__setattr__")) or (d is not None and d.endswith(".__dict__.update")):
+                # `vars(obj)` with an argument is `obj.__dict__` (the package reads that already): only writing through it rebinds
+                # anything -- `vars(obj)[k] = v`, `vars(obj).update(...)` etc. -- and that is what is reported
+                vars_read = False
+                if d == "vars" and len(n.args) == 1 and not n.keywords:
+                    par = parents.get(id(n))
+                    written = (isinstance(par, ast.Subscript) and isinstance(par.ctx, (ast.Store, ast.Del)) and par.value is n) or \
+                        (isinstance(par, ast.Attribute) and par.value is n and par.attr in ("update", "pop", "popitem", "clear", "setdefault",
+                                                                                          "__setitem__", "__delitem__"))
+                    vars_read = not written
+                if vars_read:
+                    pass
+                elif d in DYNAMIC_CALLS or (d is not None and d.endswith(".__setattr__")) or (d is not None and d.endswith(".__dict__.update")):
                     r_hook.fail(f"{m.name}:{getattr(n, 'lineno', 0)}", f"`{ast.unparse(n)[:80]}`: a dynamic facility that can create or rebind "
                                                                      f"attributes behind the analysis", stmt=f"dynamic {d}", **where(m, n))
             if isinstance(n, ast.Subscript) and isinstance(n.ctx, (ast.Store, ast.Del)) and isinstance(n.value, ast.Attribute) and \
